@@ -5,3 +5,66 @@ pub(crate) fn dur_from_bits(b: i128) -> Duration { super::duration::verif_bits::
 pub(crate) fn dur_bits(d: Duration) -> i128 { super::duration::verif_bits::bits(d) }
 pub(crate) fn time_from_bits(b: u128) -> Time { super::instant::verif_bits::from_bits(b) }
 pub(crate) fn time_bits(t: Time) -> u128 { super::instant::verif_bits::bits(t) }
+
+// ------------------------------------------------------------------------------------------------
+// C16: Kani counterparts of the Verus contracts that CBMC can decide (no 128-bit fixed * / %). They serve two
+// purposes: a second, independent engine on the same contracts, and a source of concrete failing inputs when a
+// Verus obligation of unit "time" fails (Verus itself gives no counterexample) -- see props.VERUS_PAIRS.
+// ------------------------------------------------------------------------------------------------
+use crate::datastructures::common::{TimeInterval, WireTimestamp};
+
+/// Duration -> TimeInterval rounds toward minus infinity to 2^-16 ns (within the i64 range of the target)
+#[kani::proof]
+fn c16_pair_duration_to_interval_floor() {
+    let b: i128 = kani::any();
+    kani::assume(b >= (i64::MIN as i128) << 16 && b < ((i64::MAX as i128) + 1) << 16);
+    let ti = TimeInterval::from(dur_from_bits(b));
+    let r = ti.0.to_bits() as i128;
+    assert!(r << 16 <= b && b < (r + 1) << 16);
+}
+
+/// every wire time interval converts to a duration and back unchanged
+#[kani::proof]
+fn c16_pair_interval_round_trip() {
+    let x: i64 = kani::any();
+    let ti = TimeInterval(fixed::types::I48F16::from_bits(x));
+    let d = Duration::from(ti);
+    assert!(dur_bits(d) == (x as i128) << 16);
+    assert!(TimeInterval::from(d).0.to_bits() == x);
+}
+
+/// t + d - d == t and (a - b) + b == a, exactly, over the PTP range
+#[kani::proof]
+fn c16_pair_add_sub_exact() {
+    let t: u128 = kani::any();
+    let d: i128 = kani::any();
+    kani::assume(t < (1u128 << 110) && d > -(1i128 << 110) && d < (1i128 << 110) && (t as i128) + d >= 0);
+    let tt = time_from_bits(t);
+    let dd = dur_from_bits(d);
+    let sum = tt + dd;
+    assert!(time_bits(sum) as i128 == t as i128 + d);
+    assert!(time_bits(sum - dd) == t);
+    let u: u128 = kani::any();
+    kani::assume(u < (1u128 << 110));
+    let diff = tt - time_from_bits(u);
+    assert!(dur_bits(diff) == t as i128 - u as i128);
+    assert!(time_bits(time_from_bits(u) + diff) == t);
+}
+
+/// wire timestamp -> Time: (seconds * 10^9 + nanoseconds) * 2^32
+#[kani::proof]
+fn c16_pair_time_of_wire() {
+    let s: u64 = kani::any();
+    let n: u32 = kani::any();
+    kani::assume(s < (1u64 << 48));
+    let t = Time::from(WireTimestamp { seconds: s, nanos: n });
+    assert!(time_bits(t) == ((s as u128) * 1_000_000_000 + n as u128) << 32);
+}
+
+/// sub-nanosecond part: bits 16..32 of the 2^-32 ns fraction, as 2^-16 ns units
+#[kani::proof]
+fn c16_pair_subnano() {
+    let t: u128 = kani::any();
+    let s = time_from_bits(t).subnano();
+    assert!(s.0.to_bits() as u128 == (t & 0xffff_ffff) >> 16);
+}
